@@ -17,7 +17,7 @@ RULE = ("Circuits from the program generators (lossless / loss elements anywhere
         "Non-trivial = (lossy and >= 2 injected photons) or a herald carrying photons; distinct = "
         "distinct case JSON.")
 ASSUMPTIONS = [
-    "per-pattern tolerance = (number of full output states) x 1e-9 (documented truncation) + 1e-9",
+    "per-pattern tolerance = (number of photon patterns on the circuit modes) x 1e-9 (documented truncation, applied per pattern) + 1e-9",
     "ideal Source(); detector not involved in probability_distribution",
 ]
 
@@ -85,6 +85,47 @@ def run_reuse(case):
                      for op in late)
     return {"nontrivial": bool(late) and injected >= 1,
             "labels": ["loss-added-between-reads"] if added_loss else []}
+
+
+# ---------------------------------------------------------------- many loss elements
+@st.composite
+def many_loss_case(draw):
+    """Few modes, tens of small loss elements: every visible pattern is spread over thousands of
+    hidden loss configurations."""
+    n = draw(st.integers(2, 3))
+    ops = []
+    small = st.floats(2e-4, 3e-3)
+    for _ in range(draw(st.integers(6, 9))):
+        a = draw(st.integers(0, n - 2))
+        ops.append(["bs", a, a + 1, draw(st.floats(0.2, 0.8)), "Rx", draw(small)])
+        ops.append(["ps", draw(st.integers(0, n - 1)), draw(st.floats(0, 6.2)), draw(small)])
+    # 4 photons: the patterns with 0 or 1 surviving photon consist only of configurations below 1e-9
+    return {"prog": {"n": n, "ops": ops}, "input": draw(gen.fock_state(n, 4)),
+            "backend": draw(st.sampled_from(["permanent", "permanent", "slos"]))}
+
+
+def run_many_loss(case):
+    import lightworks as lw
+    from lightworks import emulator
+    from vlib.refmodel import lossy_marginal
+    c = call("build", build_real, case["prog"])
+    vin = list(case["input"])
+    ref = lossy_marginal(c.U, vin)          # exact, from the n x n transfer matrix alone
+    d = call("probability_distribution",
+             lambda: emulator.Sampler(c, lw.State(vin), backend=case["backend"]).probability_distribution)
+    d = {tuple(k): v for k, v in d.items()}
+    tol = len(ref) * 1e-9 + 1e-9            # one truncation allowance per photon pattern
+    tot = 0.0
+    for k in set(d) | set(ref):
+        v, r = d.get(k, 0.0), ref.get(k, 0.0)
+        tot += v
+        if not abs(v - r) <= tol:
+            raise Violation(f"Sampler[{case['backend']}] with {c.U_full.shape[0] - c.n_modes} loss elements: "
+                            f"P{k} = {v:.10g}, exact {r:.10g} (difference {abs(v - r):.3g})",
+                            key="probability-mismatch-many-loss")
+    if not abs(tot - 1) <= tol:
+        raise Violation(f"distribution sums to {tot:.10g}", key="not-normalised")
+    return {"nontrivial": True, "labels": [f"loss-elements>={(c.U_full.shape[0] - c.n_modes) // 10 * 10}"]}
 
 
 # ---------------------------------------------------------------- many photons, two modes
@@ -183,8 +224,8 @@ def reference(c, vin):
         full.append(h[m] if m in h else next(it))
     full += [0] * (U.shape[0] - n)
     ref = marginal_distribution(U, n, full)
-    n_full = math.comb(U.shape[0] + sum(full) - 1, sum(full))
-    return ref, sum(full), n_full
+    # one truncation allowance (1e-9) per photon pattern on the circuit's modes
+    return ref, sum(full), len(ref)
 
 
 def check_dist(name, dist, ref, injected, n_full, n_modes):
@@ -264,7 +305,7 @@ def run_backend_direct(case):
     U = c.U_full
     full = vin + [0] * (U.shape[0] - n)
     ref = marginal_distribution(U, n, full)
-    n_full = math.comb(U.shape[0] + sum(full) - 1, sum(full))
+    n_full = len(ref)
     built = c._build()
     out = {}
     for backend in ("permanent", "slos"):
@@ -293,5 +334,6 @@ def subs(tier):
         Sub("bunched", run_dist, strategy=bunched_case(big=not q), examples=40 if q else 1500),
         Sub("edit-between-reads", run_reuse, strategy=reuse_case(), examples=50 if q else 600),
         Sub("many-photons-two-modes", run_two_mode, strategy=two_mode_case(big=not q), examples=25 if q else 400),
+        Sub("many-loss-elements", run_many_loss, strategy=many_loss_case(), examples=5 if q else 100),
         Sub("backend-direct", run_backend_direct, strategy=dist_case(big=False), examples=30 if q else 400),
     ]
